@@ -55,6 +55,11 @@ where
 
     // Batch size for draining commit notifications
     max_batch_size: usize,
+
+    /// Highest log index already handed to the SM worker. The worker applies asynchronously, so
+    /// `pending_range()` (which starts at the handler's last_applied + 1) still covers entries that
+    /// are in flight; they must not be dispatched a second time.
+    last_dispatched: std::sync::atomic::AtomicU64,
 }
 
 #[async_trait]
@@ -134,6 +139,7 @@ where
             sm_apply_tx: deps.sm_apply_tx,
             shutdown_signal: deps.shutdown_signal,
             max_batch_size: deps.max_batch_size,
+            last_dispatched: std::sync::atomic::AtomicU64::new(0),
         }
     }
 
@@ -153,6 +159,13 @@ where
         let Some(range) = pending_range else {
             return Ok(());
         };
+        // Skip what is already on its way to the SM worker (dispatched but not yet applied).
+        let start = (*range.start())
+            .max(self.last_dispatched.load(std::sync::atomic::Ordering::Acquire) + 1);
+        if start > *range.end() {
+            return Ok(());
+        }
+        let range = start..=*range.end();
         let entries = self.raft_log.get_entries_range(range)?;
 
         debug!(
@@ -284,6 +297,7 @@ where
     ) -> Result<()> {
         if !batch.is_empty() {
             let entries = std::mem::take(batch);
+            let last_index = entries.last().map(|e| e.index).unwrap_or(0);
             trace!(
                 "[Node-{}] Sending batch to SM Worker: {} entries",
                 self.my_id,
@@ -295,6 +309,8 @@ where
                 error!("[Node-{}] SM Worker channel closed: {:?}", self.my_id, e);
                 crate::Error::Fatal(format!("SM Worker channel closed: {e:?}"))
             })?;
+            self.last_dispatched
+                .fetch_max(last_index, std::sync::atomic::Ordering::AcqRel);
         }
         Ok(())
     }
